@@ -1,4 +1,6 @@
 import EAO.Driver.Core
+import EAO.Driver.Grid
+import EAO.Driver.OrderBook
 /-!
 Line-protocol driver: one JSON request per line on stdin, one JSON response per line on stdout.
 `{"ok": …}` or `{"err": "<class>"}`.  Unknown or ill-formed requests are answered with
@@ -8,7 +10,7 @@ operations it knows.
 open Lean EAO EAO.Driver
 
 def handlers : List (String → Json → Option (Except String Json)) :=
-  [handleCore]
+  [handleCore, handleGrid, handleOrderBook]
 
 def handle (j : Json) : Except String Json := do
   let op ← field j "op" Json.getStr?
